@@ -203,7 +203,8 @@ def deterministic_numeric_command(draw):
     if name == 'ram':
         return ['ram', I(1, 3), I(1, 3), I(0, 5)]
     if name == 'vdw':
-        return ['vdw', I(0, 8), I(1, 3), I(1, 3)]
+        # two or more progression lengths (the formula switches encoding at three colours)
+        return ['vdw', I(0, 8), I(1, 3), I(1, 3)] + [I(1, 3) for _ in range(draw(st.sampled_from([0, 0, 1, 2])))]
     if name == 'ptn':
         return ['ptn', I(0, 30)]
     if name == 'cliquecoloring':
